@@ -288,7 +288,7 @@ def plan(prop, tier, seed, budget):
         P = dict(
             level='exploration',
             builds=[('hash', 'asan')] + ([] if q else [('hash', 'rel'), ('hash', 'fuzz')]),
-            jobs=[g1_jobs('hash', sc, 200000 if q else 3000000), g2_jobs('hash', (200000 if prop == 'C04' else 100000 if prop == 'C19' else 150000) if q else 1200000)] +
+            jobs=[g1_jobs('hash', sc, 200000 if q else (1200000 if prop == 'C19' else 3000000)), g2_jobs('hash', (200000 if prop == 'C04' else 100000 if prop == 'C19' else 150000) if q else 1200000)] +
                  ([] if q else [g2_jobs('hash', 60000, variant='rel'), g3_jobs('hash', 400000)]),
             py=[] if q else [g3_stats('hash')],
             rule=rule + ' Distinct = distinct case bytes.',
